@@ -454,6 +454,73 @@ fn program_level(prog: &Program) -> Vec<(&'static str, Program)> {
             }
         }
     }
+    // ill-formed type parameter lists: a parameter bound twice; a parameter named like a declared type
+    for (pos, d) in prog.declarations.iter().enumerate() {
+        let (params, is_data) = match d {
+            Declaration::Data(d) => (&d.type_params, true),
+            Declaration::Codata(d) => (&d.type_params, false),
+            _ => continue,
+        };
+        if params.bindings.is_empty() {
+            continue;
+        }
+        let mut p = prog.clone();
+        match &mut p.declarations[pos] {
+            Declaration::Data(d) => {
+                let first = d.type_params.bindings[0].clone();
+                d.type_params.bindings.push(first);
+            }
+            Declaration::Codata(d) => {
+                let first = d.type_params.bindings[0].clone();
+                d.type_params.bindings.push(first);
+            }
+            _ => {}
+        }
+        out.push((if is_data { "duplicate-type-parameter-data" } else { "duplicate-type-parameter-codata" }, p));
+        // rename the first parameter (binder and every use inside the declaration) to the name of
+        // another declared type
+        let other = prog.declarations.iter().enumerate().find_map(|(i, o)| match o {
+            Declaration::Data(o) if i != pos => Some(o.name.clone()),
+            Declaration::Codata(o) if i != pos => Some(o.name.clone()),
+            _ => None,
+        });
+        if let Some(other) = other {
+            fn rename(t: &mut Ty, from: &str, to: &str) {
+                if let Ty::Decl { name, type_args, .. } = t {
+                    if name == from && type_args.args.is_empty() {
+                        *name = to.to_string();
+                    }
+                    for a in &mut type_args.args {
+                        rename(a, from, to);
+                    }
+                }
+            }
+            let mut p = prog.clone();
+            match &mut p.declarations[pos] {
+                Declaration::Data(d) => {
+                    let from = d.type_params.bindings[0].clone();
+                    d.type_params.bindings[0] = other.clone();
+                    for c in &mut d.ctors {
+                        for b in &mut c.args.bindings {
+                            rename(&mut b.ty, &from, &other);
+                        }
+                    }
+                }
+                Declaration::Codata(d) => {
+                    let from = d.type_params.bindings[0].clone();
+                    d.type_params.bindings[0] = other.clone();
+                    for c in &mut d.dtors {
+                        for b in &mut c.args.bindings {
+                            rename(&mut b.ty, &from, &other);
+                        }
+                        rename(&mut c.cont_ty, &from, &other);
+                    }
+                }
+                _ => {}
+            }
+            out.push((if is_data { "type-parameter-named-like-a-type-data" } else { "type-parameter-named-like-a-type-codata" }, p));
+        }
+    }
     // wrong number of type arguments inside declarations and signatures: every type occurrence
     {
         fn sites(p: &mut Program) -> Vec<&mut Ty> {
